@@ -53,6 +53,8 @@ pub(crate) mod shwap;
 mod swarm;
 mod swarm_manager;
 mod utils;
+#[cfg(eigerco_lumina_verif)]
+pub(crate) mod verif_p2p;
 
 use crate::block_ranges::BlockRange;
 use crate::events::EventPublisher;
